@@ -177,13 +177,24 @@ def build(r, B, variant=0):
         return a.apply_matrix(farr(r['A']))
     if op == 'rotate':
         return a.rotate_2d(math.atan2(fr(r['cs'][1]), fr(r['cs'][0])))
+    if op in ('getint', 'getlist'):
+        # the model selects components by explicit non-negative indices; the driver writes the same selection in all
+        # the ways Python indexing allows (negative indices, open-ended and reversed slices)
+        osh = a.output_shape()
+        nc = int(osh[0]) if len(osh) else 1
     if op == 'getint':
-        return a[r['i']]
+        return a[r['i'] - nc] if variant % 2 == 1 else a[r['i']]
     if op == 'getlist':
         ix = list(r['is'])
+        if ix == list(range(nc)):
+            return a[:] if variant % 2 == 0 else a[-nc:]
+        if ix == list(range(ix[0], nc)):
+            return a[ix[0]:] if variant % 2 == 0 else a[ix[0] - nc:]
+        if ix == list(range(nc - 1, -1, -1)):
+            return a[::-1]
         if ix == list(range(ix[0], ix[-1] + 1)):
             return a[ix[0]:ix[-1] + 1]
-        return a[ix]
+        return a[[i - nc for i in ix]] if variant % 2 == 1 else a[ix]
     if op == 'asnurbs':
         return a.as_nurbs()
     if op == 'asvector':
@@ -716,8 +727,9 @@ def poly_funcs(poly, variant=0):
         if not poly['vec']:
             return vals[0]
         if variant % 2 == 0:
-            return vals                              # tuple of (partially broadcast) components
-        return np.stack(np.broadcast_arrays(*vals), axis=-1)
+            return vals                              # tuple of (partially broadcast, possibly plain-number) components
+        # an array-valued callable must return an array of the shape of its (broadcast) arguments + components
+        return np.stack(np.broadcast_arrays(*(list(vals) + list(X)))[:len(vals)], axis=-1)
 
     def jac(*X):
         rows = []
@@ -800,7 +812,12 @@ def run_user(ctx, agg, rec):
     P = [M[D - 1 - c].ravel() for c in range(D)]
     X = bt.guarded('pointwise_eval', lambda: np.asarray(U.pointwise_eval(P) if poly['vec'] is False or variant % 2 else np.stack(np.broadcast_arrays(*U.pointwise_eval(P)), -1)))
     if X is not None:
-        bt.cmp('pointwise_eval', X, sh.V.reshape((-1,) + osh), sh.scale, D)
+        E = sh.V.reshape((-1,) + osh)
+        try:        # a callable that ignores its arguments returns values that BROADCAST to the point set: same values
+            X = np.broadcast_to(X, E.shape) if X.shape != E.shape and X.ndim <= E.ndim else X
+        except ValueError:
+            pass
+        bt.cmp('pointwise_eval', X, E, sh.scale, D)
     for ax in range(D):
         for side in (0, 1):
             fsh = sh.face(ax, 0 if side == 0 else -1)
